@@ -24,6 +24,8 @@ impl RandomPolicy {
     }
 
     fn incr_mem_usage(&self, value: u64) -> u64 {
+        #[cfg(memcrs_verif)]
+        crate::verif_hooks::yield_point("atomic.fetch_add");
         let mut usage = self
             .memory_usage
             .fetch_add(value, atomic::Ordering::Release);
@@ -64,6 +66,8 @@ impl RandomPolicy {
     }
 
     fn decr_mem_usage(&self, value: u64) -> u64 {
+        #[cfg(memcrs_verif)]
+        crate::verif_hooks::yield_point("atomic.fetch_sub");
         self.memory_usage
             .fetch_sub(value, atomic::Ordering::Release)
     }
